@@ -411,52 +411,46 @@ def success_alts(t):
     return out
 
 
-def inline(F, t, depth=6, stack=()):
+_CTOR_CACHE = {}
+
+
+def ctor_hashes(F):
+    k = id(F)
+    if k not in _CTOR_CACHE:
+        hs = set()
+        for adt in (ENVELOPE, CASE, ASSERTION):
+            for b, bi, si, rv in agg_sites(F, adt, include_expansion=True):
+                hs.add(b.hash)
+        _CTOR_CACHE[k] = hs
+    return _CTOR_CACHE[k]
+
+
+def inline(F, t, depth=6, stack=(), strip=True, into_ctors=True):
     """Expand calls to crate-local functions that have a single success value, substituting parameters.
-    Ok(..)/`?` wrappers are erased along the way.  Used to look through thin constructor wrappers."""
+    With strip=True Ok(..)/Some(..)/`?` wrappers are erased along the way.  Used to look through thin constructor wrappers."""
     if depth <= 0 or not isinstance(t, tuple) or not t:
         return t
     t = detry(t)
-    if t[0] == 'agg' and t[2] in ('Ok', 'Some') and (t[1].endswith('Result') or t[1].endswith('Option')) and len(t[3]) == 1:
-        return inline(F, t[3][0], depth, stack)
+    if strip and t[0] == 'agg' and t[2] in ('Ok', 'Some') and (t[1].endswith('Result') or t[1].endswith('Option')) and len(t[3]) == 1:
+        return inline(F, t[3][0], depth, stack, strip, into_ctors)
     if t[0] == 'call':
         c = CALLEES.get(t[1])
         if c is not None:
             b = F.by_hash.get(c.best_hash)
-            if b is not None and b.path not in stack and b.dk != 'Closure' and len(t[2]) == b.arg_count:
+            if b is not None and b.path not in stack and b.dk != 'Closure' and len(t[2]) == b.arg_count and (into_ctors or b.hash not in ctor_hashes(F)):
                 alts = success_alts(return_term_of(F, b))
                 if len(alts) == 1 and not contains(alts[0], lambda x: x[0] in ('rec', 'undef', 'unknown')):
                     m = {('param', i + 1): a for i, a in enumerate(t[2])}
-                    return inline(F, subst(alts[0], m), depth - 1, stack + (b.path,))
+                    return inline(F, subst(alts[0], m), depth - 1, stack + (b.path,), strip, into_ctors)
     return t
 
 
-def closure_return_values(F, clo_path, env):
-    """TABLE: set of boolean values a closure body can return under the atom valuation env (stripped term -> value)."""
-    cb = F.closure(clo_path)
-    if cb is None:
-        return None, None
-    tb = TermBuilder(F, cb)
-    reach = reach_under(cb, tb, env)
-    vals = set()
-    for bi, si, t in ret_defs(tb):
-        if bi not in reach:
-            continue
-        v = eval_bool(t, env)
-        vals.add(v)
-    return vals, tb
-
-
-def closure_atoms(F, clo_path, pred):
-    cb = F.closure(clo_path)
-    if cb is None:
-        return []
-    tb = TermBuilder(F, cb)
-    out = find_terms(cb, tb, pred)
-    for bi, si, t in ret_defs(tb):
-        for x in walk(t):
-            if isinstance(x, tuple) and x and isinstance(x[0], str) and pred(x):
-                sx = strip_sites(x)
-                if sx not in out:
-                    out.append(sx)
-    return out
+def inline_deep(F, t, depth=12, root=True):
+    """inline() applied at every sub-term (top-down), so wrappers nested inside core calls are expanded too.
+    Only the root has its Ok/Some wrapper stripped."""
+    if depth <= 0 or not isinstance(t, tuple) or not t:
+        return t
+    t2 = inline(F, t, 6, (), strip=root, into_ctors=False)
+    if not isinstance(t2, tuple) or not t2:
+        return t2
+    return tuple(inline_deep(F, x, depth - 1, False) if isinstance(x, tuple) else x for x in t2)
